@@ -235,6 +235,8 @@ class _CallPatchARM64(_CallPatchImpl):
             raise ValueError("shadow_space does not apply to ARM64")
         if conv.stack_alignment != 16:
             raise ValueError("ARM64 stack alignment should be 16")
+        if not conv.caller_cleanup:
+            raise ValueError("callee cleanup is not supported on ARM64")
 
         self._sym = sym
         self._args = self._create_passed_args(conv, args)
